@@ -173,6 +173,11 @@ impl OSr for OReal {
 #[derive(Clone, PartialEq, Debug)]
 pub struct OFf<const P: u128>(pub u128);
 
+/// Mersenne primes a user may instantiate `FiniteField<P>` with (the type is generic over "the
+/// size of the field"; the library's arithmetic is exact for every P < 2^127)
+pub const M107: u128 = (1u128 << 107) - 1;
+pub const M127: u128 = (1u128 << 127) - 1;
+
 impl<const P: u128> OSr for OFf<P> {
     type R = FiniteField<P>;
     const NAME: &'static str = "finite_field";
